@@ -5,8 +5,9 @@ Writes /verif/seeded/<Cxx-X>/{patch.diff,demo.py,meta.json}."""
 import json, os, subprocess, sys, shutil
 
 SRC = sys.argv[1]
-WT = "/tmp/wt/seedcheck"
-ENV = dict(os.environ, VERIF_REPO=WT, VERIF_OUT="/tmp/seed_out", VERIF_EVIDENCE_DIR="/tmp/seed_evidence")
+TAG = os.environ.get("SEED_TAG", "")
+WT = "/tmp/wt/seedcheck" + TAG
+ENV = dict(os.environ, VERIF_REPO=WT, VERIF_OUT="/tmp/seed_out" + TAG, VERIF_EVIDENCE_DIR="/tmp/seed_evidence" + TAG)
 PY = "/venv/bin/python"
 
 
@@ -19,7 +20,10 @@ def main():
         print(sh("git -C /repo worktree add --detach %s HEAD" % WT).stdout)
     sh("git -C %s checkout -q --detach $(git -C /repo rev-parse HEAD) && git -C %s checkout -- ." % (WT, WT))
     ids = sys.argv[2:]
+    props = os.environ.get("SEED_PROPS", "").split(",") if os.environ.get("SEED_PROPS") else None
     for prop in sorted(os.listdir(SRC)):
+        if props and prop not in props:
+            continue
         for X in ("A", "B"):
             sid = "%s-%s%s" % (prop, os.environ.get("SEED_ROUND", ""), X)
             if ids and sid not in ids:
